@@ -120,6 +120,12 @@ pub enum E {
     Some_(Box<E>),
     None_(T),
     MatchOpt(Box<E>, String, Box<E>, Box<E>),
+    /// `if let Option::Some(x) = e { a } else { b }`
+    IfLet(Box<E>, String, Box<E>, Box<E>),
+    /// `{ let cl = |p: T| body; cl(arg) }` - the body may read copyable variables in scope.
+    Closure(String, T, Box<E>, Box<E>),
+    /// `*(@e)` on a copyable value.
+    SnapDesnap(Box<E>),
     TupleNew(Vec<E>),
     /// `arr.len()`
     Len(String),
@@ -154,6 +160,16 @@ pub enum S {
     LetTuple(Vec<String>, Vec<T>, E),
     Assign(String, E),
     OpAssign(String, &'static str, T, E),
+    /// `x += e;` (the compound form of OpAssign)
+    CompoundAssign(String, &'static str, T, E),
+    /// `s.f<k> = e;`
+    FieldAssign(String, usize, E),
+    /// `s.f<k> += e;`
+    FieldCompound(String, usize, &'static str, T, E),
+    /// `let [a, b, ..] = [e1, e2, ..];`
+    LetFixed(Vec<String>, Vec<E>),
+    /// `if c { continue; }` - directly inside a `for` body only.
+    ContinueIf(E),
     Append(String, E),
     /// `let x = arr.pop_front();`
     PopFront(String, String, T),
@@ -227,6 +243,9 @@ impl E {
             E::Some_(e) => format!("Option::Some({})", e.render(p)),
             E::None_(t) => format!("Option::<{}>::None", t.render()),
             E::MatchOpt(e, n, a, b) => format!("(match {} {{ Option::Some({n}) => {}, Option::None => {}, }})", e.render(p), a.render(p), b.render(p)),
+            E::IfLet(e, n, a, b) => format!("(if let Option::Some({n}) = {} {{ {} }} else {{ {} }})", e.render(p), a.render(p), b.render(p)),
+            E::Closure(pn, pt, body, arg) => format!("({{ let cl_{pn} = |{pn}: {}| {}; cl_{pn}({}) }})", pt.render(), body.render(p), arg.render(p)),
+            E::SnapDesnap(e) => format!("(*(@({})))", e.render(p)),
             E::TupleNew(es) => {
                 if es.len() == 1 {
                     format!("({},)", es[0].render(p))
@@ -261,6 +280,11 @@ impl S {
             S::LetTuple(ns, _, e) => format!("{pad}let ({}) = {};", ns.join(", "), e.render(p)),
             S::Assign(n, e) => format!("{pad}{n} = {};", e.render(p)),
             S::OpAssign(n, op, _, e) => format!("{pad}{n} = {n} {op} {};", e.render(p)),
+            S::CompoundAssign(n, op, _, e) => format!("{pad}{n} {op}= {};", e.render(p)),
+            S::FieldAssign(n, k, e) => format!("{pad}{n}.f{k} = {};", e.render(p)),
+            S::FieldCompound(n, k, op, _, e) => format!("{pad}{n}.f{k} {op}= {};", e.render(p)),
+            S::LetFixed(ns, es) => format!("{pad}let [{}] = [{}];", ns.join(", "), es.iter().map(|e| e.render(p)).collect::<Vec<_>>().join(", ")),
+            S::ContinueIf(c) => format!("{pad}if {} {{ continue; }}", c.render(p)),
             S::Append(a, e) => format!("{pad}{a}.append({});", e.render(p)),
             S::PopFront(x, a, _) => format!("{pad}let {x} = {a}.pop_front();"),
             S::If(c, a, b) => {
@@ -316,6 +340,7 @@ pub enum Stop {
     Panic(Vec<BigInt>),
     Return(V),
     Break,
+    Continue,
     /// The evaluator ran out of its own step budget (never expected: loops are bounded).
     Fuel,
 }
@@ -556,6 +581,24 @@ impl Eval<'_> {
                 V::Opt(None) => self.expr(b, env)?,
                 _ => panic!("match opt"),
             },
+            E::IfLet(e, n, a, b) => match self.expr(e, env)? {
+                V::Opt(Some(x)) => {
+                    env.push((n.clone(), *x));
+                    let r = self.expr(a, env);
+                    env.pop();
+                    r?
+                }
+                V::Opt(None) => self.expr(b, env)?,
+                _ => panic!("if let"),
+            },
+            E::Closure(pn, _, body, arg) => {
+                let a = self.expr(arg, env)?;
+                env.push((pn.clone(), a));
+                let r = self.expr(body, env);
+                env.pop();
+                r?
+            }
+            E::SnapDesnap(e) => self.expr(e, env)?,
             E::TupleNew(es) => {
                 let mut out = vec![];
                 for x in es {
@@ -675,6 +718,46 @@ impl Eval<'_> {
                 let r = self.arith(op, t, &cur, &v)?;
                 *lookup(env, n) = r;
             }
+            S::CompoundAssign(n, op, t, e) => {
+                // `x += e`: the right-hand side is evaluated, then the operation on the current value.
+                let v = self.expr(e, env)?;
+                let cur = lookup(env, n).clone();
+                let r = self.arith(op, t, &cur, &v)?;
+                *lookup(env, n) = r;
+            }
+            S::FieldAssign(n, k, e) => {
+                let v = self.expr(e, env)?;
+                match lookup(env, n) {
+                    V::Struct(fs) => fs[*k] = v,
+                    _ => panic!("field assign"),
+                }
+            }
+            S::FieldCompound(n, k, op, t, e) => {
+                let v = self.expr(e, env)?;
+                let cur = match lookup(env, n) {
+                    V::Struct(fs) => fs[*k].clone(),
+                    _ => panic!("field compound"),
+                };
+                let r = self.arith(op, t, &cur, &v)?;
+                match lookup(env, n) {
+                    V::Struct(fs) => fs[*k] = r,
+                    _ => panic!("field compound"),
+                }
+            }
+            S::LetFixed(ns, es) => {
+                let mut vs = vec![];
+                for e in es {
+                    vs.push(self.expr(e, env)?);
+                }
+                for (n, v) in ns.iter().zip(vs) {
+                    env.push((n.clone(), v));
+                }
+            }
+            S::ContinueIf(c) => {
+                if let V::Bool(true) = self.expr(c, env)? {
+                    return Err(Stop::Continue);
+                }
+            }
             S::Append(a, e) => {
                 let v = self.expr(e, env)?;
                 match lookup(env, a) {
@@ -714,7 +797,10 @@ impl Eval<'_> {
                     env.push((i.clone(), V::Int(BigInt::from(j))));
                     let r = self.scoped(body, env);
                     env.pop();
-                    r?;
+                    match r {
+                        Err(Stop::Continue) => {}
+                        r => r?,
+                    }
                 }
             }
             S::Loop(f, k, c, body) => {
@@ -822,6 +908,8 @@ pub struct Gen<'a> {
     counter: usize,
     /// Ownership-violation injection point recorded while generating (for C08).
     pub move_sites: Vec<(usize, String)>,
+    /// Whether the innermost loop around the statements being generated is a `for`.
+    nearest_loop_is_for: bool,
 }
 
 fn int_types() -> Vec<ITy> {
@@ -830,7 +918,7 @@ fn int_types() -> Vec<ITy> {
 
 impl<'a> Gen<'a> {
     pub fn new(rng: &'a mut Rng) -> Self {
-        Gen { rng, prog: Program { structs: vec![], enums: vec![], fns: vec![] }, counter: 0, move_sites: vec![] }
+        Gen { rng, prog: Program { structs: vec![], enums: vec![], fns: vec![] }, counter: 0, move_sites: vec![], nearest_loop_is_for: false }
     }
 
     fn fresh(&mut self, p: &str) -> String {
@@ -960,6 +1048,21 @@ impl<'a> Gen<'a> {
                 }
             }
         }
+        if matches!(t, T::Int(_) | T::Felt | T::Bool) && self.rng.chance(1, 12) {
+            if self.rng.bool() {
+                return E::SnapDesnap(Box::new(self.expr(t, env, fidx, d)));
+            }
+            // A closure over the copyable variables in scope, called once.
+            let pt = self.scalar_type();
+            let pn = self.fresh("c");
+            // (Mutable variables cannot be captured.)
+            let mut env2: Vec<Var> = env.iter().filter(|v| v.ty.is_copy() && !v.moved && !v.snap && !v.mutable).cloned().collect();
+            env2.push(Var { name: pn.clone(), ty: pt.clone(), mutable: false, moved: false, snap: false, pinned: false });
+            // No calls inside the closure body (they may need `ref` arguments that are not captured).
+            let body = self.expr(t, &env2, 0, d.min(1));
+            let arg = self.expr(&pt, env, fidx, d);
+            return E::Closure(pn, pt, Box::new(body), Box::new(arg));
+        }
         // Type-independent forms.
         match self.rng.below(14) {
             0 => {
@@ -1000,7 +1103,8 @@ impl<'a> Gen<'a> {
                 let n = self.fresh("o");
                 let mut env2 = env.to_vec();
                 env2.push(Var { name: n.clone(), ty: it, mutable: false, moved: false, snap: false, pinned: false });
-                return E::MatchOpt(Box::new(scrut), n, Box::new(self.expr(t, &env2, fidx, d)), Box::new(self.expr(t, env, fidx, d)));
+                let (a, b) = (Box::new(self.expr(t, &env2, fidx, d)), Box::new(self.expr(t, env, fidx, d)));
+                return if self.rng.bool() { E::MatchOpt(Box::new(scrut), n, a, b) } else { E::IfLet(Box::new(scrut), n, a, b) };
             }
             4 if !self.prog.structs.is_empty() => {
                 // Field of a struct that has a field of type t.
@@ -1197,7 +1301,7 @@ impl<'a> Gen<'a> {
         let mut out = vec![];
         for _ in 0..n {
             let d = 2;
-            match self.rng.below(16) {
+            match self.rng.below(21) {
                 0..=3 => {
                     let t = if self.rng.chance(1, 6) { T::Arr(Box::new(self.scalar_type())) } else { self.value_type(1) };
                     let name = self.fresh("v");
@@ -1249,8 +1353,11 @@ impl<'a> Gen<'a> {
                     let mut e1 = env.clone();
                     e1.push(Var { name: i.clone(), ty: T::Int(ITy::by_name("u32").unwrap()), mutable: false, moved: false, snap: false, pinned: false });
                     let nb = 1 + self.rng.below(3);
+                    let is_for = self.rng.bool();
+                    let saved = std::mem::replace(&mut self.nearest_loop_is_for, is_for);
                     let body = self.stmts(&mut e1, fidx, nb, depth - 1, true, ret);
-                    out.push(if self.rng.bool() { S::While(i, k, body) } else { S::For(i, k, body) });
+                    self.nearest_loop_is_for = saved;
+                    out.push(if is_for { S::For(i, k, body) } else { S::While(i, k, body) });
                 }
                 9 if depth > 0 => {
                     let f = self.fresh("fuel");
@@ -1258,7 +1365,9 @@ impl<'a> Gen<'a> {
                     let c = self.expr(&T::Bool, env, fidx, d);
                     let mut e1 = env.clone();
                     let nb = 1 + self.rng.below(3);
+                    let saved = std::mem::replace(&mut self.nearest_loop_is_for, false);
                     let body = self.stmts(&mut e1, fidx, nb, depth - 1, true, ret);
+                    self.nearest_loop_is_for = saved;
                     out.push(S::Loop(f, k, c, body));
                 }
                 10 if !in_loop => {
@@ -1301,6 +1410,53 @@ impl<'a> Gen<'a> {
                         if let Some(args) = self.call_args(f, env, fidx, d) {
                             out.push(S::Expr(E::Call(f, args)));
                         }
+                    }
+                }
+                15 | 16 => {
+                    // Compound assignment, on a variable or on a struct member.
+                    let c: Vec<Var> = env.iter().filter(|v| v.mutable && !v.moved && !v.snap && matches!(v.ty, T::Int(_) | T::Felt | T::Struct(_))).cloned().collect();
+                    if let Some(v) = (!c.is_empty()).then(|| self.rng.pick(&c).clone()) {
+                        match &v.ty {
+                            T::Struct(si) => {
+                                let fts = self.prog.structs[*si].fields.clone();
+                                let k = self.rng.below(fts.len());
+                                let e = self.expr(&fts[k], env, fidx, d);
+                                if matches!(fts[k], T::Int(_) | T::Felt) && self.rng.bool() {
+                                    out.push(S::FieldCompound(v.name.clone(), k, *self.rng.pick(&["+", "-", "*"]), fts[k].clone(), e));
+                                } else {
+                                    out.push(S::FieldAssign(v.name.clone(), k, e));
+                                }
+                            }
+                            t => {
+                                let e = self.expr(t, env, fidx, d);
+                                out.push(S::CompoundAssign(v.name.clone(), *self.rng.pick(&["+", "-", "*"]), t.clone(), e));
+                            }
+                        }
+                    }
+                }
+                17 => {
+                    // Fixed-size array literal taken apart again.
+                    let t = self.scalar_type();
+                    let n = 2 + self.rng.below(2);
+                    let es: Vec<E> = (0..n).map(|_| self.expr(&t, env, fidx, d)).collect();
+                    let names: Vec<String> = (0..n).map(|_| self.fresh("q")).collect();
+                    out.push(S::LetFixed(names.clone(), es));
+                    for name in names {
+                        env.push(Var { name, ty: t.clone(), mutable: false, moved: false, snap: false, pinned: false });
+                    }
+                }
+                18 | 19 if in_loop && self.nearest_loop_is_for => {
+                    let c = self.expr(&T::Bool, env, fidx, d);
+                    out.push(S::ContinueIf(c));
+                }
+                20 => {
+                    // A mutable struct to assign members of later.
+                    if !self.prog.structs.is_empty() {
+                        let t = T::Struct(self.rng.below(self.prog.structs.len()));
+                        let name = self.fresh("v");
+                        let e = self.expr(&t, env, fidx, d);
+                        out.push(S::Let(name.clone(), t.clone(), true, e));
+                        env.push(Var { name, ty: t, mutable: true, moved: false, snap: false, pinned: false });
                     }
                 }
                 14 if !in_loop && depth == 2 => {
